@@ -624,8 +624,22 @@ func (r *Runner) execNext(st *State, f *Frame, x *ssa.Next) {
 	_, v := r.mapLookup(st, m, k)
 	st.ghost[id] = st.define("visited", Store(visited, key, True))
 	st.ghost[id+":last"] = key
-	out := Val{T: x.Type(), C: append(append([]Term{ok}, k.C...), v.C...)}
-	out.Clo = &Closure{Bindings: []Val{{}, k, v}}
+	// the tuple type of Next has an invalid (single-slot) component where the loop ignores key or value
+	tt := x.Type().(*types.Tuple)
+	out := Val{T: x.Type(), C: []Term{ok}}
+	parts := []Val{{}, k, v}
+	for i, pv := range []Val{k, v} {
+		want := len(layout(tt.At(i + 1).Type()))
+		if want == len(pv.C) {
+			out.C = append(out.C, pv.C...)
+		} else {
+			for j := 0; j < want; j++ {
+				out.C = append(out.C, Zero)
+			}
+			parts[i+1] = Val{}
+		}
+	}
+	out.Clo = &Closure{Bindings: parts}
 	f.regs[x] = out
 }
 
